@@ -73,6 +73,19 @@ fn check_seq(s: &Seq, groups: &[usize], obj: &Obj, who: &str) -> Result<(), (Str
             if bot != firsts || k != offs.len() { return Err((format!("OffsetTable:{who}"), format!("written table {:?}, written item offsets {:?} ({} items)", bot, firsts, offs.len()))); }
         }
     }
+    // the object read back from its file image holds the same table and fragments, and yields the same frames
+    match file_round_trip(obj) {
+        None => return Err((format!("Wire:{who}"), "the written object cannot be read back".into())),
+        Some(back) => {
+            let s2 = back.element(tags::PIXEL_DATA).ok().map(|e| seq_of(e.value().clone()));
+            if s2.as_ref() != Some(s) { return Err((format!("Wire:{who}"), format!("read back: table {:?}, {} fragments", s2.as_ref().map(|x| x.0.clone()), s2.as_ref().map(|x| x.1.len()).unwrap_or(0)))); }
+            if obj.number_of_frames() == Some(groups.len() as u32) {
+                for f in 0..groups.len() as u32 {
+                    if back.frame_pixel_data(f).map(|c| c.to_vec()) != obj.frame_pixel_data(f).map(|c| c.to_vec()) { return Err((format!("FrameExtract:{who}"), format!("frame {f} differs after a file round trip"))); }
+                }
+            }
+        }
+    }
     Ok(())
 }
 
@@ -133,7 +146,7 @@ fn trans_case(r: &mut Rng, which: usize) -> Case {
     let frames = r.range(1, 5) as u32;
     let n = rows as usize * cols as usize * spp as usize * (bits as usize / 8) * frames as usize;
     let px: Vec<u8> = (0..n).map(|_| r.below(256) as u8).collect();
-    let mut obj = mk(rows, cols, spp, bits, frames, native_value(&px, bits == 16 && r.coin()), uids::EXPLICIT_VR_LITTLE_ENDIAN);
+    let mut obj = mk(rows, cols, spp, bits, frames, native_value(&px, r.coin()), uids::EXPLICIT_VR_LITTLE_ENDIAN);
     let ok = catch(|| obj.transcode(ts).map_err(|e| e.to_string()));
     let name = ts.name().split_whitespace().take(2).collect::<Vec<_>>().join("-");
     let bucket = format!("transcode/{name}/b{bits}/spp{spp}/{}", if (rows as usize * cols as usize * spp as usize * (bits as usize / 8)) % 2 == 1 { "odd-frame" } else { "even-frame" });
